@@ -305,6 +305,116 @@ func c18(c *Ctx) {
 					}
 				}
 			}
+			// positions evaluated inside Eval itself: once a position's expression answered false, no `return true` is
+			// reached before that expression is evaluated again (i.e. within this row)
+			for _, in := range inner {
+				if !isEvalInvoke(in) || in.Parent() != ev {
+					continue
+				}
+				var vEx ssa.Value
+				for _, ref := range *in.Referrers() {
+					if ex, ok := ref.(*ssa.Extract); ok && ex.Index == 0 {
+						vEx = ex
+					}
+				}
+				if vEx == nil {
+					continue
+				}
+				seen := map[string]bool{}
+				var walk func(b, from *ssa.BasicBlock, env map[ssa.Value]bool, first bool) bool
+				evalB := func(c ssa.Value, env map[ssa.Value]bool) (bool, bool) {
+					neg := false
+					for {
+						if u, ok := c.(*ssa.UnOp); ok && u.Op == token.NOT {
+							c, neg = u.X, !neg
+							continue
+						}
+						break
+					}
+					if c == vEx {
+						return neg, true // v is false
+					}
+					if k, ok := c.(*ssa.Const); ok && k.Value != nil && isBool(k.Type()) {
+						return (k.Value.String() == "true") != neg, true
+					}
+					if v, ok := env[c]; ok {
+						return v != neg, true
+					}
+					return false, false
+				}
+				walk = func(b, from *ssa.BasicBlock, env map[ssa.Value]bool, first bool) bool {
+					if !first {
+						if b == in.Block() || b == hdr {
+							return false
+						}
+						// boolean phis take the value of the edge the path came in on
+						changed := false
+						for _, ins := range b.Instrs {
+							ph, ok := ins.(*ssa.Phi)
+							if !ok {
+								break
+							}
+							if !isBool(ph.Type()) {
+								continue
+							}
+							for ei, pr := range b.Preds {
+								if pr != from {
+									continue
+								}
+								if !changed {
+									n := map[ssa.Value]bool{}
+									for k2, v2 := range env {
+										n[k2] = v2
+									}
+									env, changed = n, true
+								}
+								if v, known := evalB(ph.Edges[ei], env); known {
+									env[ph] = v
+								} else {
+									delete(env, ph)
+								}
+							}
+						}
+						key := fmt.Sprint(b.Index)
+						var ks []string
+						for k2, v2 := range env {
+							ks = append(ks, fmt.Sprintf("%s=%v", k2.Name(), v2))
+						}
+						sort.Strings(ks)
+						key += "|" + strings.Join(ks, ",")
+						if seen[key] {
+							return false
+						}
+						seen[key] = true
+					}
+					if ret, ok := b.Instrs[len(b.Instrs)-1].(*ssa.Return); ok {
+						rv := retResult(ret, 0)
+						if v, known := evalB(rv, env); known {
+							return v
+						}
+						return false
+					}
+					succs := b.Succs
+					if iff, ok := b.Instrs[len(b.Instrs)-1].(*ssa.If); ok {
+						if v, known := evalB(iff.Cond, env); known {
+							if v {
+								succs = []*ssa.BasicBlock{b.Succs[0]}
+							} else {
+								succs = []*ssa.BasicBlock{b.Succs[1]}
+							}
+						}
+					}
+					for _, s2 := range succs {
+						if walk(s2, b, env, false) {
+							return true
+						}
+					}
+					return false
+				}
+				if walk(in.Block(), nil, map[ssa.Value]bool{}, true) {
+					conjOK, conjWhy = false, "after a position answered false the row can still be accepted"
+				}
+			}
 			okShape := hdr != nil
 			why := ""
 			if hdr != nil {
@@ -327,6 +437,41 @@ func c18(c *Ctx) {
 					if !inLoop && isTrue {
 						okShape, why = false, "returns true outside the rows loop"
 					}
+				}
+			}
+			// what Eval iterates is what Resolve built: the rows field Eval reads is stored by Resolve before it reports success
+			if rs := methodOf(p, inT, "Resolve"); rs != nil && rs.Blocks != nil {
+				var rowsFld *types.Var
+				eachInstr(ev, func(i ssa.Instruction) {
+					if ld, ok := i.(*ssa.UnOp); ok && ld.Op == token.MUL {
+						if fa, ok := ld.X.(*ssa.FieldAddr); ok && resolveLocal(fa.X) == ssa.Value(ev.Params[0]) {
+							if fv := fieldVar(fa.X.Type(), fa.Field); fv != nil {
+								if sl, ok := fv.Type().Underlying().(*types.Slice); ok {
+									if _, ok := sl.Elem().Underlying().(*types.Slice); ok {
+										rowsFld = fv
+									}
+								}
+							}
+						}
+					}
+				})
+				if rowsFld != nil {
+					isStore := func(j ssa.Instruction) bool {
+						st, ok := j.(*ssa.Store)
+						if !ok {
+							return false
+						}
+						fa, ok := st.Addr.(*ssa.FieldAddr)
+						return ok && fieldVar(fa.X.Type(), fa.Field) == rowsFld && resolveLocal(fa.X) == ssa.Value(rs.Params[0]) && !isNilConst(st.Val)
+					}
+					okSt := true
+					for _, ret := range returnsOf(rs) {
+						if ei := errIndex(rs.Signature); ei >= 0 && isNilConst(retResult(ret, ei)) && !passedBefore(rs, ret, isStore, nil) {
+							okSt = false
+						}
+					}
+					r.Check(okSt, "C18.R3", "In keeps the rows it resolved", p.Pos(rs.Pos()), "the rows field Eval iterates is stored before Resolve reports success",
+						"Resolve reports success without storing the rows it built into the field Eval iterates: In(…) has no rows at evaluation time and accepts nothing")
 				}
 			}
 			checkPairwiseArity(p, r, "C18.R3", ev)
